@@ -290,7 +290,7 @@ static int op_hist(int argc, char **argv, FILE *out) {
             fputs("done 0", out);
         } else if((!strcmp(name, "enc") || !strcmp(name, "encb")) && nf >= 2) {
             /* `enc` only on a structure holding a completely decoded value; `encb` on whatever is there
-             * (finding F140: dynamic_encoder_cb memcpy(.., NULL, 0) for a string whose buf is NULL) */
+             * (what encoders do with half-built structures belongs to C04: findings F51, F52) */
             if(!sptr || (partial && !strcmp(name, "enc"))) fputs("skip 0", out);
             else {
                 asn_encode_to_new_buffer_result_t r; ssize_t n; int hadbuf;
